@@ -136,14 +136,16 @@ theorem quote_token_only_in_subcommands : quoteTemplatePrefixes = [] := by decid
 the `warn` of the default case is never reached from the loop over `defaultVals`. -/
 theorem default_keys_known : defaultVals.all (fun kv => configKeys.contains kv.1) = true := by decide
 
-/-- Every site: shape theorem (round 1) **and** pinned transitive closure with admissible effects. -/
-theorem every_site_transitively_tied :
+/-- Every site: hash tie to a shape (round 1: `every_site_hash_tied_to_shape`) **and** pinned hash of the
+transitive callee closure with admissible effect kinds. (What the body does is read off the source in
+Props/C16Run.lean.) -/
+theorem every_site_closure_hash_tied :
     ∀ s, s ∈ sites → (∃ e, e ∈ expected ∧
         e.matchesSite s.file s.fn s.mapExpr s.ord s.hash s.cls = true ∧ ShapeHolds e.shape) ∧
       (∃ d, d ∈ deepSites ∧ (d.file, d.fn, d.mapExpr, d.ord) = (s.file, s.fn, s.mapExpr, s.ord) ∧
         ∃ de, de ∈ deepExpected ∧ de.matchesSite d = true ∧ d.kinds.all (de.allow.contains ·) = true) := by
   intro s hs
-  refine ⟨every_site_has_proof s hs, ?_⟩
+  refine ⟨every_site_hash_tied_to_shape s hs, ?_⟩
   have hmem : (s.file, s.fn, s.mapExpr, s.ord) ∈ deepSites.map (fun d => (d.file, d.fn, d.mapExpr, d.ord)) := by
     rw [deep_sites_are_the_sites]
     exact List.mem_map.mpr ⟨s, hs, rfl⟩
@@ -221,7 +223,7 @@ namespace NA.C16.Deep
 def obligations : List Lean.Name := [
   ``NA.C16.any_sort_deterministic, ``NA.C16.any_sort_of_map_keys, ``NA.C16.mergeSort_sorts, ``NA.C16.intLe_lawful, ``NA.C16.firstFree_least,
   ``NA.C16.deep_sites_are_the_sites, ``NA.C16.deep_sites_covered, ``NA.C16.deep_kinds_admissible, ``NA.C16.deep_exceptions_are_two,
-  ``NA.C16.quote_token_only_in_subcommands, ``NA.C16.default_keys_known, ``NA.C16.every_site_transitively_tied,
+  ``NA.C16.quote_token_only_in_subcommands, ``NA.C16.default_keys_known, ``NA.C16.every_site_closure_hash_tied,
   ``NA.C16.sorted_inner_covered, ``NA.C16.no_source_inside_map_loops, ``NA.C16.ext_sites_unreachable,
   ``NA.C16.planning_sources_classified, ``NA.C16.no_concurrency_in_planning, ``NA.C16.natural_sorts_total,
   ``NA.C16.comparator_sorts_from_maps]
